@@ -19,12 +19,15 @@ func init() {
 }
 
 type c19Case struct {
-	Class     string   `json:"class"`  // spokfile class
-	Action    []string `json:"action"` // command line
-	Nested    bool     `json:"nested"`
-	GitIgnore bool     `json:"gitignore"` // a .gitignore already exists in cwd
-	Messy     bool     `json:"messy"`     // the valid spokfile is not in canonical format
-	PreCache  bool     `json:"precache"`  // a .spok cache from an earlier run exists
+	Class      string   `json:"class"`  // spokfile class
+	Action     []string `json:"action"` // command line
+	Nested     bool     `json:"nested"`
+	GitIgnore  bool     `json:"gitignore"`             // a .gitignore already exists in cwd
+	Messy      bool     `json:"messy"`                 // the valid spokfile is not in canonical format
+	PreCache   bool     `json:"precache"`              // a .spok cache from an earlier run exists
+	SpokMode   int      `json:"spok_mode,omitempty"`   // permission bits of the spokfile (0: 0644)
+	Umask      int      `json:"umask,omitempty"`       // file mode creation mask of the spok process (0: 022)
+	CacheBlock string   `json:"cache_block,omitempty"` // the cache directory cannot be created: "file" (.spok is a regular file) | "rodir" (project directory not writable)
 }
 
 var c19Classes = []string{"valid", "valid-no-tasks", "syntax-error", "duplicate-task", "unknown-builtin", "failing-exec", "absent", "directory", "ident-rhs", "symlink", "dangling-symlink"}
@@ -79,6 +82,29 @@ func c19Cases(tier string) []c19Case {
 						}
 					}
 				}
+			}
+		}
+	}
+	// permission bits of the spokfile x umask of the process: --fmt rewrites the text and nothing else
+	for _, cl := range []string{"valid", "symlink"} {
+		for _, mode := range []int{0o664, 0o600, 0o666, 0o755, 0o640} {
+			for _, um := range []int{0o022, 0o077, 0o002} {
+				for _, a := range [][]string{{"--fmt"}, {"--fmt", "--quiet"}, {"t"}} {
+					for _, messy := range []bool{false, true} {
+						if messy && cl != "valid" {
+							continue
+						}
+						out = append(out, c19Case{Class: cl, Action: a, Messy: messy, SpokMode: mode, Umask: um})
+					}
+				}
+			}
+		}
+	}
+	// the cache directory cannot be created: an error, and nothing is written anywhere else (HOME is in the sandbox)
+	for _, blk := range []string{"file", "rodir"} {
+		for _, a := range actions {
+			for _, nested := range []bool{false, true} {
+				out = append(out, c19Case{Class: "valid", Action: a, Nested: nested, CacheBlock: blk})
 			}
 		}
 	}
@@ -140,9 +166,29 @@ func c19Run(root string, c c19Case) (obs []c19Obs, outcome string) {
 		oldIgnore = "node_modules/\n*.log"
 		t.File(cwdRel+"/.gitignore", oldIgnore)
 	}
+	if c.SpokMode != 0 {
+		target := filepath.Join(proj, "spokfile")
+		if c.Class == "symlink" {
+			target = filepath.Join(root, "home/shared/spokfile")
+		}
+		os.Chmod(target, os.FileMode(c.SpokMode))
+	}
+	switch c.CacheBlock {
+	case "file":
+		t.File("home/w/proj/.spok", "not a directory\n")
+	case "rodir":
+		os.Chmod(proj, 0o555)
+	}
+	umask := -1
+	if c.Umask != 0 {
+		umask = c.Umask
+	}
 	before := bin.Snap(root)
-	o := bin.Run(cwd, home, nil, c.Action...)
+	o := bin.RunUmask(cwd, home, nil, umask, c.Action...)
 	after := bin.Snap(root)
+	if c.CacheBlock == "rodir" {
+		os.Chmod(proj, 0o755)
+	}
 	outcome = fmt.Sprintf("exit%d", o.Exit)
 	if o.Died() {
 		return []c19Obs{{"process-died", fmt.Sprintf("signal=%s timeout=%v %s", o.Signal, o.TimedOut, firstLines(o.Stderr, 3))}}, "died"
@@ -190,7 +236,13 @@ func c19Run(root string, c c19Case) (obs []c19Obs, outcome string) {
 			obs = append(obs, c19Obs{"path-changed", fmt.Sprintf("directory %s changed mode", p)})
 		case isFmt && c.Class == "symlink" && p == "home/shared/spokfile":
 			// formatting through the link rewrites the file it points to
+			if before[p].Mode != after[p].Mode || after[p].Kind != "file" {
+				obs = append(obs, c19Obs{"fmt-changed-mode", fmt.Sprintf("--fmt changed the spokfile from %s %04o to %s %04o", before[p].Kind, before[p].Mode, after[p].Kind, after[p].Mode)})
+			}
 		case isFmt && p == "home/w/proj/spokfile":
+			if before[p].Mode != after[p].Mode || before[p].Kind != after[p].Kind {
+				obs = append(obs, c19Obs{"fmt-changed-mode", fmt.Sprintf("--fmt changed the spokfile from %s %04o to %s %04o", before[p].Kind, before[p].Mode, after[p].Kind, after[p].Mode)})
+			}
 			if !loads {
 				obs = append(obs, c19Obs{"fmt-rewrote-invalid-spokfile", fmt.Sprintf("--fmt rewrote a spokfile of class %s (exit %d)", c.Class, o.Exit)})
 			}
